@@ -806,5 +806,8 @@ seed("c13-shared-error-mutated", "C13", "R-smtperror-not-mutated", "conn.go",
 			smtpErr.EnhancedCode = enhCode
 		}""", "the backend's error object is modified in place")
 
+seed("c11-keyword-case", "C11", "R-args-single-equals", "parse.go",
+"""			argMap[strings.ToUpper(m[0])] = m[1]""", """			argMap[m[0]] = m[1]""", "lower-case parameter keyword treated as unknown")
+
 json.dump(S, open(os.path.join(os.path.dirname(os.path.abspath(__file__)), "bank.json"), "w"), indent=1)
 print(len(S), "seeds")
